@@ -493,6 +493,8 @@ def run_check(check_name, tier, seed=None, nruns=None):
         nruns = check.quick_runs if tier == "quick" else check.thorough_runs
         if os.environ.get("VERIF_RUNS"):
             nruns = int(os.environ["VERIF_RUNS"])
+        elif os.environ.get("VERIF_FRAC"):
+            nruns = max(50, int(nruns * float(os.environ["VERIF_FRAC"])))
     wall_cap = float(os.environ.get("VERIF_WALL", 150 if tier == "quick" else 1500))
     nj = jobs()
     print("check %s tier=%s seed=%d runs=%d jobs=%d repo=%s" % (check.prop, tier, seed, nruns, nj, seams.REPO), flush=True)
